@@ -260,6 +260,10 @@ class PathLossBase:
         PL : float | np.ndarray
             Path loss (in dB) for the given distance(s).
         """
+        if isinstance(d, np.ndarray) and d.dtype.kind in 'iu':
+            # Distances given as integers: calculate in double precision
+            # (numpy would calculate in half precision for 8 bit integers)
+            d = d.astype(float)
         PL = self._calc_deterministic_path_loss_dB(d, **kargs)
         if self.use_shadow_bool is True:  # pragma: no cover
             # Shadowing modeled by a Gaussian Distribution (in dB)
